@@ -96,6 +96,8 @@ RULE = ("masks: line / 2-D random / sparse / nearly empty / full, 6..40 rows and
         "stress feature (non-empty protected region / keep_acs / capped request / both parts non-empty), a history of >= 2 "
         "calls; distinct = distinct case description")
 
+FORM_CODE = {"enum": 0, "lower": 1, "upper": 2, "mixed": 3}
+
 # findings of this check on the current tree that the lead has not yet ruled on (still reported as VIOLATION)
 PENDING_FINDINGS: list[str] = []
 
@@ -104,6 +106,7 @@ WATCHDOG_S = 20.0
 STREAM_CAP = 50_000_000     # raw candidates replayed per case (C helper); the model sees their first occurrences
 PY_STREAM_CAP = 200_000
 DIRS = ["horizontal", "vertical", "diagonal_left", "diagonal_right"]
+FORMS = ["enum", "enum", "lower", "upper", "mixed"]      # how an enum-valued option is handed over
 RATIOS = [(1, 20), (19, 20), (1, 2), (3, 10), (9, 10), (2, 5), (3, 4), (1, 3), (7, 10), (1, 4), (1, 10), (4, 5)]
 
 
@@ -148,6 +151,15 @@ def _worker_main():  # pragma: no cover - runs in the subprocess
 
     libc = ctypes.CDLL("libc.so.6")
 
+    def as_form(member, form):
+        """an enum-valued option as the member itself or as a lower / UPPER / MiXeD-case string (DirectEnum compares equal
+        to strings whatever their case, so every form is a supported way to configure the splitters)"""
+        v = str(member.value)
+        if form in (None, "enum"):
+            return member
+        return v.lower() if form == "lower" else v.upper() if form == "upper" else \
+            "".join(c.upper() if i % 2 == 0 else c.lower() for i, c in enumerate(v))
+
     def build(case):
         kind = case["kind"]
         ratios = [p / q for p, q in case["ratios"]]
@@ -161,9 +173,9 @@ def _worker_main():  # pragma: no cover - runs in the subprocess
                 forward_operator=fft2, backward_operator=ifft2, mask_func=None, transforms_type=TransformsType.SSL_SSDU,
                 use_seed=bool(case["use_seed"]), mask_split_ratio=ratios if len(ratios) > 1 else ratios[0],
                 mask_split_acs_region=tuple(case["a"]), mask_split_keep_acs=bool(case["keep"]),
-                mask_split_type=S.MaskSplitterType(kind if kind != "gauss" else "gaussian"),
+                mask_split_type=as_form(S.MaskSplitterType(kind if kind != "gauss" else "gaussian"), case.get("type_form")),
                 mask_split_gaussian_std=float(case.get("std", 3.0)),
-                mask_split_half_direction=S.HalfSplitType(case.get("dir", "vertical")))
+                mask_split_half_direction=as_form(S.HalfSplitType(case.get("dir", "vertical")), case.get("dir_form")))
             stage = [t for t in comp.transforms if isinstance(getattr(t, "_transform", t), S.MaskSplitter)]
             if len(stage) != 1:
                 raise RuntimeError(f"pipeline has {len(stage)} splitter stages")
@@ -173,7 +185,7 @@ def _worker_main():  # pragma: no cover - runs in the subprocess
         elif kind == "uniform":
             sp = S.UniformMaskSplitterModule(ratio=ratios if len(ratios) > 1 else ratios[0], **kw)
         else:
-            sp = S.HalfMaskSplitterModule(direction=S.HalfSplitType(case["dir"]), **kw)
+            sp = S.HalfMaskSplitterModule(direction=as_form(S.HalfSplitType(case["dir"]), case.get("dir_form")), **kw)
         return sp, sp
 
     def run_once(case, perturb):
@@ -648,6 +660,14 @@ def _worker_main():  # pragma: no cover - runs in the subprocess
             return {"ok": False, "err": type(e).__name__, "msg": str(e)[:300], "calls": [dict(c) for c in calls],
                     "log": list(RecRS.log)}
         res["ok"] = True
+        forms = [case.get(k) for k in ("dir_form", "type_form") if case.get(k) not in (None, "enum")]
+        if forms and case["level"] in ("split", "forward", "pipeline") and (case.get("use_seed") or case.get("kind") == "half"):
+            # the same call with the options given as enum members: must be the same split
+            try:
+                rr = run_once({k: v for k, v in case.items() if k not in ("dir_form", "type_form")}, int(case.get("perturb", 1)))
+                res["enum_ref"] = {"ok": True, "input": rr["input"], "target": rr["target"]}
+            except Exception as e:  # noqa: BLE001
+                res["enum_ref"] = {"ok": False, "err": f"{type(e).__name__}: {e}"[:200]}
         if case.get("twice"):
             try:
                 r2 = run_once(case, int(case.get("perturb", 1)) * 7919 + 13)
@@ -1085,6 +1105,9 @@ def _gen_case(rng, kind: str, level: str) -> dict:
             "use_seed": int(use_seed), "perturb": rng.randrange(1, 10 ** 6), "twice": 1, "std": 3.0}
     if kind == "half":
         case["dir"] = rng.choice(DIRS)
+        case["dir_form"] = rng.choice(FORMS)
+    if level == "pipeline":
+        case["type_form"] = rng.choice(FORMS)
     if level == "forward" and rng.random() < 0.25:
         case["kkey"] = "kspace"          # rarely used option: another k-space key
     if level == "split":
@@ -1245,7 +1268,9 @@ def _gen_inst(rng, kind: str, keep=None, via=None) -> dict:
          "ratios": [rng.choice(RATIOS)] if rng.random() < 0.8 else [rng.choice(RATIOS) for _ in range(2)],
          "via": via or rng.choice(["module", "module", "pipeline"])}
     if kind == "half":
-        d["dir"], d["ratios"] = rng.choice(DIRS), [(1, 2)]
+        d["dir"], d["ratios"], d["dir_form"] = rng.choice(DIRS), [(1, 2)], rng.choice(FORMS)
+    if d["via"] == "pipeline":
+        d["type_form"] = rng.choice(FORMS)
     if d["via"] == "module" and rng.random() < 0.25:
         d["kkey"] = "kspace"
     return d
@@ -1464,6 +1489,8 @@ def _histograms(ctx, case, res):
             f"size/{'6-12' if max(H, W) <= 13 else '13-24' if max(H, W) <= 24 else '25-40'}",
             f"acs_mask/{'given' if case['acs'] else 'none'}", f"outcome/{'ok' if res.get('ok') else res.get('err')}",
             f"data/{case.get('dims', 2)}d", f"kspace_key/{case.get('kkey', 'masked_kspace')}"]
+    if case.get("dir_form") or case.get("type_form"):
+        keys.append(f"enum_option_form/{case.get('dir_form') or '-'}+{case.get('type_form') or '-'}")
     if case["kind"] != "half":
         keys += [f"ratio/{p}:{q}" for p, q in case["ratios"][:1]] + [f"ratios/{len(case['ratios'])}"]
     for k in keys:
@@ -1526,7 +1553,8 @@ def _protocol(case, res):
         if kind == "half":
             xs, ys = _scaled_coords(res)
             _diag_stats(case, res)
-            ln = "hsplit " + _grp([H, W, keep, a0, a1, DIRS.index(case["dir"])], case["masks"][0], acs0, xs, ys)
+            ln = "hsplit " + _grp([H, W, keep, a0, a1, DIRS.index(case["dir"]), FORM_CODE[case.get("dir_form") or "enum"]],
+                                  case["masks"][0], acs0, xs, ys)
             ans = ("ok " + _grp(res["input"][0], res["target"][0])) if res["ok"] else _err(res)
             return ln, ans, ""
         idx, p, q = ratio_of(0)
@@ -1684,6 +1712,12 @@ def _check(case, res):
             if res.get("input2") is None or res["input2"][b] != i or res["target2"][b] != t:
                 yield (f"{kind}-split-not-deterministic",
                        "same mask / file name / slice, different call history: different split")
+    ref = res.get("enum_ref")
+    if ref is not None and (not ref.get("ok") or ref["input"] != res["input"] or ref["target"] != res["target"]):
+        opts = {k: case.get(k) for k in ("dir", "dir_form", "type_form") if case.get(k)}
+        yield (f"{kind}-option-as-string-differs",
+               f"the same call with the enum-valued options given as strings {opts} and as enum members gives different splits "
+               f"(DirectEnum compares equal to strings of any case){'' if ref.get('ok') else ': ' + str(ref.get('err'))}")
     if res.get("mutated"):
         yield (f"{kind}-forward-mutates-input", f"forward changed the tensors it was handed in place: {res['mutated']} (the sampling "
                "mask / k-space / ACS mask of the sample are the originals the split is defined against)")
@@ -1839,6 +1873,10 @@ def _fixed_cases():
     for a in ([1, 1], [3, 5], [1, 10], [9, 9]):
         out.append(dict(base, kind="uniform", a=a, ratios=[(1, 2)], nrow=9, ncol=10, masks=[[1] * 90], mtype="full"))
         out.append(dict(base, kind="gauss", a=a, ratios=[(1, 2)], nrow=9, ncol=10, masks=[[1] * 90], mtype="full"))
+    for d in DIRS:
+        for f in ("lower", "upper", "mixed"):
+            out.append(dict(base, kind="half", a=[2, 2], ratios=[(1, 2)], dir=d, dir_form=f, nrow=7, ncol=12,
+                            masks=[[1 if (k * 7) % 5 else 0 for k in range(84)]], mtype="2d"))
     for d in DIRS:
         out.append(dict(base, kind="half", a=[4, 4], ratios=[(1, 2)], dir=d, masks=[[1] * 100], mtype="full"))
         out.append(dict(base, kind="half", a=[0, 0], ratios=[(1, 2)], dir=d, nrow=7, ncol=12, masks=[[1] * 84], mtype="full"))
